@@ -466,7 +466,7 @@ func segmentFMP4MuxParts(
 	var tfdt *amp4.Tfdt
 	var timeScale uint32
 	var segmentDuration time.Duration
-	breakAtNextMdat := false
+	doneTracks := make(map[uint32]struct{})
 
 	fileSize, err := r.Seek(0, io.SeekEnd)
 	if err != nil {
@@ -526,7 +526,9 @@ func segmentFMP4MuxParts(
 
 			for _, e := range trun.Entries {
 				if dts >= durationMP4 {
-					breakAtNextMdat = true
+					// stop when every track has gone past the end of the window,
+					// not as soon as the first one has
+					doneTracks[tfhd.TrackID] = struct{}{}
 					break
 				}
 
@@ -572,7 +574,7 @@ func segmentFMP4MuxParts(
 			}
 
 		case "mdat":
-			if breakAtNextMdat {
+			if len(doneTracks) >= len(tracks) {
 				return nil, errTerminated
 			}
 		}
